@@ -39,6 +39,18 @@ check("C11", "dynupdate", DYN_TECH,
       "over naming modes, cookie affinity, auth-url backends and certificate rotation.",
       DYN_NOTE, "DESIGN.md 6 C11")
 
+CTL_TECH = ("TLA+ spec Controller.tla (cluster histories + FullModel oracle) model-checked by TLC; TLC-generated and seeded random histories "
+            "replayed on the real pipeline (fake API server, real cache/watchers/converters/instance) next to freshly started controllers; "
+            "every recorded quiescent point judged by TLC (TraceController.tla)")
+CTL_NOTE = ("Trusted: TLC; harness/cfgnf (parser + canonicalisation of internal labels); controller-runtime fake client; the harness plays the API "
+            "server (generation bumps, event delivery through the real predicates). HAProxy itself is not run.")
+check("C01", "controller", CTL_TECH,
+      "Every history (TLC-simulated over 3 ingress slots x 12 templates, 2 services, 2 secrets, <=3 events per batch; random over an extended "
+      "vocabulary of ~30 annotation sets, tcp services, default backend, secrets, ConfigMap changes, shards) is run incrementally; after each batch "
+      "TLC checks Converged (normal form == freshly started controller) and, for the core vocabulary, that the routing tables read from the files "
+      "equal Controller!FullModel(cluster). Unstable divergences (nondeterminism) are left to C06.",
+      CTL_NOTE, "DESIGN.md 6 C01")
+
 NOT_BUILT = "check not built yet (planned, DESIGN.md section 6); no claim made until the check exists"
 
 
